@@ -275,6 +275,13 @@ impl OsIpcSender {
             fds.push(shared_memory_region.store.fd());
         }
 
+        // The receiving side only provides room for `MAX_FDS_IN_CMSG` descriptors per message.
+        // The kernel silently drops what does not fit there,
+        // so a message with more descriptors than that must not be sent at all.
+        if fds.len() > MAX_FDS_IN_CMSG as usize {
+            return Err(UnixError::Errno(libc::EMSGSIZE));
+        }
+
         // `len` is the total length of the message.
         // Its value will be sent as a message header before the payload data.
         //
@@ -405,6 +412,10 @@ impl OsIpcSender {
         //
         // The receiver end of the channel is sent with the first fragment
         // along any other file descriptors that are to be transferred in the message.
+        // (So a fragmented message has room for one descriptor less.)
+        if fds.len() >= MAX_FDS_IN_CMSG as usize {
+            return Err(UnixError::Errno(libc::EMSGSIZE));
+        }
         let (dedicated_tx, dedicated_rx) = channel()?;
         // Extract FD handle without consuming the Receiver, so the FD doesn't get closed.
         fds.push(dedicated_rx.fd.get());
